@@ -13,6 +13,7 @@ import (
 
 	"github.com/sanonone/kektordb/internal/zzverif/vexec"
 	"github.com/sanonone/kektordb/internal/zzverif/vkit"
+	"github.com/sanonone/kektordb/pkg/core/distance"
 	"github.com/sanonone/kektordb/pkg/engine"
 	"github.com/sanonone/kektordb/pkg/persistence"
 	"github.com/sanonone/kektordb/pkg/verifhook"
@@ -193,6 +194,108 @@ func TestVerifC02(t *testing.T) {
 			defer e.Close()
 			msg, _ := vexec.ReadRecovered(e).Explain([]*vexec.Model{pre, x.M.Clone()})
 			return msg
+		})
+		// process death at every hook point inside VCompress (arena rebuilt on new files,
+		// snapshot phases), from every kind of persistent pre-state
+		ctx.Group("compress", ctx.N(32, 400), func(cs *vkit.Case) {
+			defer verifhook.Reset()
+			x := vexec.NewExec(cs, cs.SubDir("data"))
+			defer func() {
+				if x.E != nil {
+					x.E.Close()
+				}
+			}()
+			r := cs.R
+			metric := vkit.Pick(r, []string{"euclidean", "cosine"})
+			target := "float16"
+			if metric == "cosine" {
+				target = "int8"
+			}
+			if r.Chance(0.25) {
+				target = "float32" // rebuild at the same precision
+			}
+			x.VCreate(vexec.IndexCfg{Name: "ia", Metric: distance.DistanceMetric(metric), Prec: "float32", M: 4, EfC: 8})
+			x.VCreate(vexec.IndexCfg{Name: "ib", Metric: "euclidean", Prec: "float32", M: 4, EfC: 8})
+			add := func(n int, tag string) {
+				for i := 0; i < n; i++ {
+					x.VAdd("ia", fmt.Sprintf("%s%d", tag, i), []float32{r.F32(), r.F32(), r.F32()}, map[string]any{"n": float64(i), "tag": tag})
+					if i%2 == 0 {
+						x.VAdd("ib", fmt.Sprintf("%s%d", tag, i), []float32{r.F32(), r.F32(), r.F32()}, nil)
+					}
+				}
+			}
+			add(r.Range(2, 7), "a")
+			pre := cs.Idx % 6
+			switch pre {
+			case 1: // a snapshot holds the index
+				x.SaveSnapshot()
+			case 2: // snapshot, then more records in the log
+				x.SaveSnapshot()
+				add(r.Range(1, 4), "b")
+				x.VDelete("ia", "a0")
+			case 3: // compacted (self-contained) log, no snapshot
+				x.RewriteAOF()
+			case 4: // stale snapshot under a self-contained log, then more records
+				x.SaveSnapshot()
+				add(2, "b")
+				x.RewriteAOF()
+				add(2, "c")
+			case 5: // an earlier compression of the other index
+				x.SaveSnapshot()
+				x.VCompress("ib", "float16")
+				add(2, "b")
+			}
+			x.E.AOF.Flush()
+			before := x.M.Clone()
+			var mu sync.Mutex
+			type shot struct{ dir, point string }
+			var shots []shot
+			verifhook.SetGlobal(func(name string, _ any) {
+				if strings.HasPrefix(name, "replay.") || name == "lazy.truncated" || name == "lazy.replaced" {
+					return
+				}
+				mu.Lock()
+				defer mu.Unlock()
+				if len(shots) >= 16 {
+					return
+				}
+				dir := filepath.Join(cs.TempDir(), fmt.Sprintf("cimg%d", len(shots)))
+				if err := vexec.ImageDir(x.Dir, dir); err != nil {
+					panic(err)
+				}
+				shots = append(shots, shot{dir, name})
+			})
+			x.VCompress("ia", distance.PrecisionType(target))
+			verifhook.Reset()
+			if x.Rejected {
+				cs.Fail("VCompress(ia,%s) on a %s index was rejected", target, metric)
+			}
+			after := x.M.Clone()
+			// the image of the completed operation must recover the compressed index
+			final := filepath.Join(cs.TempDir(), "cimg-final")
+			if err := vexec.ImageDir(x.Dir, final); err != nil {
+				cs.Fail("image copy: %v", err)
+			}
+			c02Evaluate(ctx, cs, final, fmt.Sprintf("crash right after VCompress(ia,%s) returned (pre-state %d)", target, pre), []*vexec.Model{after}, 0)
+			os.RemoveAll(final)
+			seen := map[string]bool{}
+			for _, sh := range shots {
+				c02Evaluate(ctx, cs, sh.dir, fmt.Sprintf("crash at %s inside VCompress(ia,%s) (pre-state %d)", sh.point, target, pre), []*vexec.Model{before, after}, 0)
+				os.RemoveAll(sh.dir)
+				ctx.Count("compress.point."+sh.point, 1)
+				seen[sh.point] = true
+			}
+			if len(shots) == 0 {
+				ctx.Inconclusive("no hook point was reached inside VCompress")
+			}
+			// the live engine goes on: more writes, then an ordinary restart
+			add(2, "z")
+			x.Restart()
+			if msg := x.CheckFull(); msg != "" {
+				cs.Fail("after VCompress + writes + restart: %s", msg)
+			}
+			ctx.Eval(1)
+			ctx.Distinct(fmt.Sprintf("compress/%s/%s/pre%d/%s", metric, target, pre, strings.Join(vexec.SortedKeys(seen), ",")))
 		})
 		ctx.Group("crash", ctx.N(240, 4000), func(cs *vkit.Case) {
 			defer verifhook.Reset()
